@@ -31,6 +31,12 @@ CLAIMED = {
             note="Trusted: Coq kernel, translator (textual recognition of Where.filter statements), extraction+driver, harness. Reservoir's skip lengths (libm log/pow) are supplied to the model by the harness; "
                  "Take/Cache/Chunk/Params/Identity are modelled by definition (prefix/identity) and tied by correspondence only; CPython sorted() stability is trusted.",
             technique="Coq proof over position model + translator + extracted-model correspondence", design="§5 C09"),
+ "C11": dict(text="Coq theorems (C11/Props.v) over an exact-rational model of Scale and Impute: min/max are members and bounds of the fitting window, min/minmax maps the window into [0,1], "
+                  "Scale changes exactly the numeric cells of scaled columns to (x+shift)*scale using the first `using` rows and nothing else, Impute changes no non-missing value, fills missing "
+                  "values with the window statistic and appends the same number of indicator cells to every row. Dense and sparse variants are tied by correspondence of the extracted model "
+                  "with the code; an independent Fraction oracle covers scalar contexts, std, Environments.impute/scale and filter objects reused on other data.",
+            note="Trusted: Coq kernel, extraction+driver, harness (tolerance 1e-9 between exact rationals and binary64). std (sqrt) and scalar contexts are oracle-only; the sparse variants have no cell-level theorem (correspondence only). NaN inputs are not generated.",
+            technique="Coq proof over exact-rational model + extracted-model correspondence + Fraction oracle", design="§5 C11"),
 }
 NA_REASON = "check not built yet in this revision (planned, see DESIGN.md §8); no claim is made"
 def main():
